@@ -59,6 +59,7 @@ pub fn spec() -> Spec {
         counters,
         signature,
         slice: false,
+        obs: false,
         also_check: true,
     }
 }
